@@ -41,6 +41,7 @@ type Path struct {
 	inOld   bool
 	ghostGen int
 	now     string // allocation clock: every reference obtained so far was born before `now`
+	cells   map[types.Object]string // locals whose address was taken: they live in a heap cell from then on
 }
 
 func NewPath() *Path {
@@ -52,6 +53,12 @@ func (p *Path) Clone() *Path {
 		heap: make(map[string]string, len(p.heap)), heapGen: p.heapGen, oldHeap: p.oldHeap, oldGen: p.oldGen, entry: p.entry, inOld: p.inOld, ghostGen: p.ghostGen, now: p.now}
 	for k, v := range p.vars {
 		q.vars[k] = v
+	}
+	if len(p.cells) > 0 {
+		q.cells = make(map[types.Object]string, len(p.cells))
+		for k, v := range p.cells {
+			q.cells[k] = v
+		}
 	}
 	for k, v := range p.names {
 		q.names[k] = v
@@ -147,6 +154,9 @@ type Exec struct {
 	lastUnknownWrites bool
 	curCall           *ast.CallExpr
 	boundsOnly        bool
+	keySorts          map[string]string // array sorts of heap keys seen by the write-set scans
+	havocWhy          []string // why the whole mutable heap was forgotten (diagnostics of frame[*])
+	frame             *frameInfo // what the contract under verification allows the body to change (nil: no frame checking)
 	lastFieldWhole    map[string]bool // heap fields assigned as a whole (not only element-wise) in the last scanned loop body
 	lastWholeAssigned map[types.Object]bool // variables assigned as a whole (not only element-wise) in the last scanned loop body
 	loopOrdinals      map[ast.Node]int // static (source-order) ordinal of every loop of the unit under verification
@@ -187,12 +197,29 @@ func heapKeyOf(named *types.Named, field string) string {
 func (ex *Exec) isMutableKey(key string) bool {
 	// keys of repository struct types, deref cells and globals are mutable; external struct
 	// types (descriptors, protobuf messages built by protoc) are never written by generator code.
-	return strings.HasPrefix(key, "~") || strings.HasPrefix(key, "deref:") || strings.HasPrefix(key, "global:")
+	if strings.HasPrefix(key, "deref:") {
+		switch key {
+		case "deref:Bool", "deref:Int", "deref:String", "deref:Real":
+			// cells of pointers to basic types (proto.Bool(true), &x): mutable only if some code assigns through such a pointer
+			return ex.w.WrittenFields()[key]
+		}
+		return true
+	}
+	return strings.HasPrefix(key, "~") || strings.HasPrefix(key, "global:")
 }
 
 func (ex *Exec) heapKey(named *types.Named, field string) string {
 	k := heapKeyOf(named, field)
-	if named.Obj().Pkg() != nil && ex.w.RepoPaths[named.Obj().Pkg().Path()] || ex.extMutable(named) {
+	if ex.extMutable(named) {
+		if strings.Contains(named.Obj().Pkg().Path(), "libopenapi") && !ex.w.WrittenFields()[k] {
+			// OpenAPI model objects are plain data: a field the generator never assigns keeps the value it was built with
+			ex.c.Trust("libopenapi does not modify the fields of the high-level model objects handed to it")
+			return k
+		}
+		return "~" + k
+	}
+	if named.Obj().Pkg() != nil && ex.w.RepoPaths[named.Obj().Pkg().Path()] && ex.w.WrittenFields()[k] {
+		// (a repository field that no code ever assigns after allocation is kept in an immutable array: modref.go)
 		return "~" + k
 	}
 	return k
@@ -260,6 +287,7 @@ func (ex *Exec) havocMutableHeap(p *Path) {
 // body is a direct field assignment, the whole mutable heap otherwise.
 func (ex *Exec) havocLoopHeap(p *Path, fieldKeys []string, unknown bool) {
 	if unknown || len(fieldKeys) == 0 {
+		ex.havocWhy = append(ex.havocWhy, "loop whose body writes the heap through calls or pointers")
 		ex.havocMutableHeap(p)
 		return
 	}
@@ -282,7 +310,10 @@ func (ex *Exec) havocLoopHeap(p *Path, fieldKeys []string, unknown bool) {
 		}
 		if s, ok := ex.c.funSeen[quote(name)]; ok {
 			p.heap[k] = ex.c.Fresh("H:"+k, s)
+		} else if s, ok := ex.keySorts[k]; ok {
+			p.heap[k] = ex.c.Fresh("H:"+k, s)
 		} else {
+			ex.havocWhy = append(ex.havocWhy, "loop writing heap key "+k+" of unknown sort")
 			ex.havocMutableHeap(p)
 			return
 		}
@@ -685,6 +716,10 @@ func (ex *Exec) assignTo(p *Path, lhs ast.Expr, v Value) {
 			p.heap[key] = "(store " + ex.heapArr(p, key, ex.c.SortOf(vr.Type())) + " null " + ex.convert(p, v, vr.Type(), l.Pos()).T + ")"
 			return
 		}
+		if r, ok := p.cells[obj]; ok {
+			ex.heapWrite(p, "deref:"+sortToken(ex.c.SortOf(obj.Type())), obj.Type(), r, ex.convert(p, v, obj.Type(), l.Pos()).T)
+			return
+		}
 		p.vars[obj] = ex.convert(p, v, obj.Type(), l.Pos())
 	case *ast.ParenExpr:
 		ex.assignTo(p, l.X, v)
@@ -992,6 +1027,9 @@ func (ex *Exec) assignedIn(body ast.Node) (vars []types.Object, heapWrite bool) 
 	ex.lastUnknownWrites = false
 	ex.lastWholeAssigned = map[types.Object]bool{}
 	ex.lastFieldWhole = map[string]bool{}
+	if ex.keySorts == nil {
+		ex.keySorts = map[string]string{}
+	}
 	ast.Inspect(body, func(n ast.Node) bool {
 		switch s := n.(type) {
 		case *ast.AssignStmt:
@@ -1020,6 +1058,7 @@ func (ex *Exec) assignedIn(body ast.Node) (vars []types.Object, heapWrite bool) 
 								if named, ok := types.Unalias(pt.Elem()).(*types.Named); ok {
 									hk := ex.heapKey(named, r.Sel.Name)
 									ex.lastFieldWrites = append(ex.lastFieldWrites, hk)
+									ex.keySorts[hk] = "(Array Ref " + ex.c.SortOf(ex.info.TypeOf(r)) + ")"
 									if _, isSl := ex.info.TypeOf(r).Underlying().(*types.Slice); !(viaIndex && isSl) {
 										ex.lastFieldWhole[hk] = true
 									}
@@ -1036,7 +1075,14 @@ func (ex *Exec) assignedIn(body ast.Node) (vars []types.Object, heapWrite bool) 
 						}
 					case *ast.StarExpr:
 						heapWrite = true
-						ex.lastUnknownWrites = true
+						if ks := ex.keysOfPointee(ex.info.TypeOf(r.X), ""); ks != nil {
+							for _, k := range ks {
+								ex.lastFieldWrites = append(ex.lastFieldWrites, k)
+								ex.lastFieldWhole[k] = true
+							}
+						} else {
+							ex.lastUnknownWrites = true
+						}
 						root = nil
 					}
 					break
@@ -1070,7 +1116,14 @@ func (ex *Exec) assignedIn(body ast.Node) (vars []types.Object, heapWrite bool) 
 			// any call may write the mutable heap unless it is a known pure one
 			if !ex.callIsHeapPure(s) {
 				heapWrite = true
-				ex.lastUnknownWrites = true
+				if ks, ok := ex.calleeWriteKeys(s); ok {
+					for _, k := range ks {
+						ex.lastFieldWrites = append(ex.lastFieldWrites, k)
+						ex.lastFieldWhole[k] = true
+					}
+				} else {
+					ex.lastUnknownWrites = true
+				}
 			}
 			// map arguments of callees whose contract says `modifies <map parameter>` are assigned by the call
 			if fn := ex.calleeOf(s); fn != nil {
@@ -1117,6 +1170,83 @@ func (ex *Exec) assignedIn(body ast.Node) (vars []types.Object, heapWrite bool) 
 	}
 	sort.Slice(out, func(i, j int) bool { return out[i].Pos() < out[j].Pos() })
 	return out, heapWrite
+}
+
+// keysOfPointee: the heap keys written by an assignment through a pointer of type t (field "" = the whole pointee).
+func (ex *Exec) keysOfPointee(t types.Type, field string) []string {
+	if t == nil {
+		return nil
+	}
+	ptr, ok := t.Underlying().(*types.Pointer)
+	if !ok {
+		return nil
+	}
+	if named, ok := types.Unalias(ptr.Elem()).(*types.Named); ok {
+		if st, isStruct := named.Underlying().(*types.Struct); isStruct {
+			var ks []string
+			for i := 0; i < st.NumFields(); i++ {
+				if field == "" || st.Field(i).Name() == field {
+					k := ex.heapKey(named, st.Field(i).Name())
+					ex.keySorts[k] = "(Array Ref " + ex.c.SortOf(st.Field(i).Type()) + ")"
+					ks = append(ks, k)
+				}
+			}
+			return ks
+		}
+	}
+	if field != "" {
+		return nil
+	}
+	k := "deref:" + sortToken(ex.c.SortOf(ptr.Elem()))
+	ex.keySorts[k] = "(Array Ref " + ex.c.SortOf(ptr.Elem()) + ")"
+	return []string{k}
+}
+
+// calleeWriteKeys: the heap keys a call may write according to the callee's contract (ok=false: unknown).
+func (ex *Exec) calleeWriteKeys(call *ast.CallExpr) ([]string, bool) {
+	fn := ex.calleeOf(call)
+	if fn == nil {
+		return nil, false
+	}
+	c := ex.w.Contracts[shortKey(fn)]
+	if c == nil && ex.emittedPkg(fn) {
+		c = ex.w.emittedContract(fn)
+	}
+	if c == nil || !ex.contractApplies(c, fn) {
+		return nil, false
+	}
+	sig := fn.Type().(*types.Signature)
+	var keys []string
+	for _, m := range c.Modifies {
+		if m == "*" {
+			return nil, false
+		}
+		name, field := m, ""
+		if i := strings.Index(m, "."); i >= 0 {
+			name, field = m[:i], m[i+1:]
+		}
+		var t types.Type
+		if sig.Recv() != nil && c.RecvName == name {
+			t = sig.Recv().Type()
+		}
+		for i, pn := range c.ParamNames {
+			if pn == name && i < sig.Params().Len() {
+				t = sig.Params().At(i).Type()
+			}
+		}
+		if t == nil {
+			return nil, false
+		}
+		if _, isMap := t.Underlying().(*types.Map); isMap && field == "" {
+			continue
+		}
+		ks := ex.keysOfPointee(t, field)
+		if ks == nil {
+			return nil, false
+		}
+		keys = append(keys, ks...)
+	}
+	return keys, true
 }
 
 // callIsHeapPure: calls that cannot write the modelled mutable heap.
@@ -1171,9 +1301,11 @@ func (ex *Exec) bodyIsHeapPure(fi *FuncInfo, depth int) bool {
 	}
 	ex.heapPureCache[full] = 1 // assume pure for recursion
 	saveInfo := ex.info
+	sFW, sUW, sWA, sFWh := ex.lastFieldWrites, ex.lastUnknownWrites, ex.lastWholeAssigned, ex.lastFieldWhole
 	ex.info = fi.Pkg.TypesInfo
 	_, hw := ex.assignedIn(fi.Decl.Body)
 	ex.info = saveInfo
+	ex.lastFieldWrites, ex.lastUnknownWrites, ex.lastWholeAssigned, ex.lastFieldWhole = sFW, sUW, sWA, sFWh
 	if hw {
 		ex.heapPureCache[full] = 0
 		return false
@@ -1224,6 +1356,10 @@ func (ex *Exec) loopClauses(ord int) []*Clause {
 
 func (ex *Exec) havocVars(p *Path, vars []types.Object) {
 	for _, o := range vars {
+		if r, isCell := p.cells[o]; isCell {
+			ex.heapWrite(p, "deref:"+sortToken(ex.c.SortOf(o.Type())), o.Type(), r, ex.c.Fresh("h:"+o.Name(), ex.c.SortOf(o.Type())))
+			continue
+		}
 		cur, ok := p.vars[o]
 		ty := o.Type()
 		if ok {
@@ -1317,6 +1453,7 @@ func (ex *Exec) execRange(p *Path, st *ast.RangeStmt) []outcome {
 		// initiation
 		bind(p, "0")
 		ex.checkInvariants(p, invs, ord, "init", st.Pos())
+		ex.checkFrame(p, st.Pos(), "loop entry")
 		var outs []outcome
 		// arbitrary iteration
 		it := p.Clone()
@@ -1324,6 +1461,7 @@ func (ex *Exec) execRange(p *Path, st *ast.RangeStmt) []outcome {
 		ex.advanceClock(it)
 		if heapW {
 			ex.havocLoopHeap(it, fieldWrites, unknownWrites)
+			ex.assumeFrame(it)
 			if ex.traceEvents {
 				ex.havocGhostBody(it, st.Body)
 			}
@@ -1356,6 +1494,7 @@ func (ex *Exec) execRange(p *Path, st *ast.RangeStmt) []outcome {
 			case oNormal, oContinue:
 				bind(o.p, "(+ "+i+" 1)")
 				ex.checkInvariants(o.p, invs, ord, "preserve", st.Pos())
+				ex.checkFrame(o.p, st.Pos(), "loop body end")
 			case oBreak:
 				if o.lbl != "" {
 					outs = append(outs, o)
@@ -1389,12 +1528,14 @@ func (ex *Exec) execRange(p *Path, st *ast.RangeStmt) []outcome {
 		bindDone(p, emptyDone)
 		p.names["_rangemap"] = coll
 		ex.checkInvariants(p, invs, ord, "init", st.Pos())
+		ex.checkFrame(p, st.Pos(), "loop entry")
 		var outs []outcome
 		it := p.Clone()
 		ex.havocVars(it, modVars)
 		ex.advanceClock(it)
 		if heapW {
 			ex.havocLoopHeap(it, fieldWrites, unknownWrites)
+			ex.assumeFrame(it)
 			if ex.traceEvents {
 				ex.havocGhostBody(it, st.Body)
 			}
@@ -1422,6 +1563,7 @@ func (ex *Exec) execRange(p *Path, st *ast.RangeStmt) []outcome {
 			case oNormal, oContinue:
 				bindDone(o.p, "(store "+d+" "+k+" true)")
 				ex.checkInvariants(o.p, invs, ord, "preserve", st.Pos())
+				ex.checkFrame(o.p, st.Pos(), "loop body end")
 			case oBreak:
 				if o.lbl != "" {
 					outs = append(outs, o)
@@ -1477,12 +1619,14 @@ func (ex *Exec) execFor(p *Path, st *ast.ForStmt) []outcome {
 		unknownWrites = unknownWrites || ex.lastUnknownWrites
 	}
 	ex.checkInvariants(p, invs, ord, "init", st.Pos())
+	ex.checkFrame(p, st.Pos(), "loop entry")
 	var outs []outcome
 	it := p.Clone()
 	ex.havocVars(it, modVars)
 	ex.advanceClock(it)
 	if heapW {
 		ex.havocLoopHeap(it, fieldWrites, unknownWrites)
+		ex.assumeFrame(it)
 		if ex.traceEvents {
 			ex.havocGhostBody(it, st.Body)
 		}
@@ -1506,6 +1650,7 @@ func (ex *Exec) execFor(p *Path, st *ast.ForStmt) []outcome {
 				q = po[0].p
 			}
 			ex.checkInvariants(q, invs, ord, "preserve", st.Pos())
+			ex.checkFrame(q, st.Pos(), "loop body end")
 		case oBreak:
 			if o.lbl != "" {
 				outs = append(outs, o)
